@@ -149,22 +149,57 @@ theorem disc_decodeHeader : Disc decodeHeader := by
 theorem disc_decodeAttDescs : Disc decodeAttDescs := by
   unfold decodeAttDescs; dsimp only; repeat' disc_step
 
-theorem disc_decodeIntegerValues (kind ne nc : Nat) : Disc (decodeIntegerValues kind ne nc) := by
-  unfold decodeIntegerValues; dsimp only; repeat' disc_step
+theorem disc_integerValuesTail (sel ne nc : Nat) : Disc (integerValuesTail sel ne nc) := by
+  unfold integerValuesTail; dsimp only; repeat' disc_step
 
+attribute [local irreducible] integerValuesTail in
+theorem disc_decodeIntegerValues (kind ne nc : Nat) : Disc (decodeIntegerValues kind ne nc) := by
+  unfold decodeIntegerValues; dsimp only
+  repeat' (first | exact disc_integerValuesTail _ _ _ | disc_step)
+
+attribute [local irreducible] decodeIntegerValues decodeAttDescs in
 theorem disc_decodeSequentialAttributes (opts : DecOpts) (np : Nat) : Disc (decodeSequentialAttributes opts np) := by
   unfold decodeSequentialAttributes; dsimp only
   repeat' (first | exact disc_decodeAttDescs | exact disc_decodeIntegerValues _ _ _ | disc_step)
 
+theorem disc_decodeSchemeSelection (kind : Nat) : Disc (decodeSchemeSelection kind) := by
+  unfold decodeSchemeSelection; repeat' disc_step
+
+theorem disc_decodeTransformParams (dt nc : Nat) : Disc (decodeTransformParams dt nc) := by
+  unfold decodeTransformParams; repeat' disc_step
+
+theorem disc_finishSeqAttribute (opts : DecOpts) (s : SeqAttState) (n : Nat) (mp : Option (List Nat)) :
+    Disc (finishSeqAttribute opts s n mp) := by
+  unfold finishSeqAttribute; dsimp only; repeat' disc_step
+
+theorem disc_storeValuesCheck (s : SeqAttState) : Disc (storeValuesCheck s) := by
+  unfold storeValuesCheck; repeat' disc_step
+
+attribute [local irreducible] integerValuesTail decodeAttDescs decodeSchemeSelection decodeTransformParams finishSeqAttribute
+  storeValuesCheck in
+theorem disc_decodeSequentialAttributesLegacy (opts : DecOpts) (np : Nat) :
+    Disc (decodeSequentialAttributesLegacy opts np) := by
+  unfold decodeSequentialAttributesLegacy; dsimp only
+  repeat' (first | exact disc_decodeAttDescs | exact disc_integerValuesTail _ _ _ | exact disc_decodeSchemeSelection _ | exact disc_decodeTransformParams _ _ | exact disc_finishSeqAttribute _ _ _ _ | exact disc_storeValuesCheck _ | disc_step)
+
+attribute [local irreducible] decodeSequentialAttributesLegacy decodeSequentialAttributes in
+theorem disc_decodeSequentialAttributesV (opts : DecOpts) (np : Nat) : Disc (decodeSequentialAttributesV opts np) := by
+  unfold decodeSequentialAttributesV
+  repeat' (first | exact disc_decodeSequentialAttributesLegacy _ _ | exact disc_decodeSequentialAttributes _ _ | disc_step)
+
+attribute [local irreducible] decodeSequentialAttributesV in
 theorem disc_decodePointAttributesSeq (opts : DecOpts) (np : Nat) : Disc (decodePointAttributesSeq opts np) := by
   unfold decodePointAttributesSeq
-  repeat' (first | exact disc_decodeSequentialAttributes _ _ | disc_step)
+  repeat' (first | exact disc_decodeSequentialAttributesV _ _ | disc_step)
 
 theorem disc_decodeSeqConnectivity : Disc decodeSeqConnectivity := by
   unfold decodeSeqConnectivity; dsimp only; repeat' disc_step
 
-theorem disc_decodeGeometry (opts : DecOpts) : Disc (decodeGeometry opts) := by
-  unfold decodeGeometry; dsimp only
-  repeat' (first | exact disc_decodeHeader | exact disc_decodeSeqConnectivity | exact disc_decodePointAttributesSeq _ _ | disc_step)
+attribute [local irreducible] decodeHeader decodeSeqConnectivity decodePointAttributesSeq in
+/-- the dispatcher is disciplined whenever the body decoders are -/
+theorem disc_decodeStreamWith (eb kd : DecOpts → DecM Geometry) (opts : DecOpts) (heb : Disc (eb opts)) (hkd : Disc (kd opts)) :
+    Disc (decodeStreamWith eb kd opts) := by
+  unfold decodeStreamWith; dsimp only
+  repeat' (first | exact heb | exact hkd | exact disc_decodeHeader | exact disc_decodeSeqConnectivity | exact disc_decodePointAttributesSeq _ _ | disc_step)
 
 end Draco.Robust
